@@ -816,6 +816,18 @@ func (c *SpecCtx) callExpr(x *ast.CallExpr, sn *SpecNode) (Value, types.Type) {
 				}
 			}
 			return acc, rt
+		case "contents":
+			// contents(b): the backing array of slice b as a ghost byte sequence (index = b.off + i)
+			v, t := c.expr(x.Args[0], sn)
+			sl, ok := v.(*SliceV)
+			if !ok {
+				c.fail("contents of a non-slice")
+			}
+			et := t.Underlying().(*types.Slice).Elem()
+			name := heapNameArr(et, "")
+			bs := e.mode.leafSort(et)
+			h := e.heap(c.st, name, arraySort(RefSort, arraySort(e.mode.idxSort(), bs)))
+			return Select(h, sl.Ref), &ghostArrT{elem: et}
 		case "beval":
 			// big-endian value of the given bytes (2, 4 or 8 of them)
 			nb := len(x.Args)
@@ -866,6 +878,27 @@ func (c *SpecCtx) callExpr(x *ast.CallExpr, sn *SpecNode) (Value, types.Type) {
 		// predicate (macro)
 		if p, ok := e.v.db.Preds[id.Name]; ok {
 			return c.applyPred(p, x.Args, sn)
+		}
+		if uf, ok := e.v.db.UFuns[id.Name]; ok {
+			var args []*Node
+			var sorts []string
+			for i, a := range x.Args {
+				v, t := c.expr(a, sn)
+				pt := c.resolveTypeName(uf.Params[i].Type)
+				var n *Node
+				if _, isG := pt.(*ghostArrT); isG {
+					n = v.(*Node)
+				} else {
+					n = c.coerce(v, t, pt)
+				}
+				args = append(args, n)
+				sorts = append(sorts, n.Sort)
+			}
+			rt := c.resolveTypeName(uf.Ret)
+			rs := e.mode.leafSort(rt)
+			fn := fmt.Sprintf("uf_%s_%d", uf.Name, int(e.mode))
+			TS.DeclFun(fn, sorts, rs)
+			return App(fn, rs, args...), rt
 		}
 		// uninterpreted / builtin spec functions
 		if f, ok := specFuncs[id.Name]; ok {
@@ -949,8 +982,12 @@ func (c *SpecCtx) applyPred(p *Pred, args []ast.Expr, sn *SpecNode) (Value, type
 			v = c.e.ar.lit(cv.V, pt)
 		} else if isMath(pt) && !isMath(t) && t != nil {
 			v = c.e.ar.Convert(v.(*Node), t, mathInt)
+		} else if types.IsInterface(pt) && t != nil && !types.IsInterface(t) {
+			// implicit conversion of a concrete value (e.g. *bytes.Buffer) to the interface parameter
+			if n, ok := v.(*Node); ok && n.Sort != "Iface" {
+				v = c.e.box(c.st, n, t)
+			}
 		}
-		_ = t
 		vals = append(vals, specVar{v, pt})
 	}
 	for i, b := range p.Params {
